@@ -46,6 +46,12 @@ def cases(tier):
     for r in range(0, 4):
         for order in itertools.permutations(EXTRAS, r):
             out.append({'part': 'detect', 'order': list(order)})
+    kinds = ['cf1d', 'cf2d', 'shoc_simple', 'shoc_standard', 'ugrid']
+    for a in kinds:
+        for b in kinds:
+            if a != b:
+                # the same path holds first one kind of dataset, then another, then the first again
+                out.append({'part': 'files', 'order': [a, b, a]})
     depth = 3 if tier == 'quick' else 5
     out.append({'part': 'bind-bfs', 'depth': 6 if tier == 'quick' else 8})
     # full enumeration, split by first operation to spread over workers
@@ -80,6 +86,15 @@ def detection_datasets():
     d['Mesh2'] = d['Mesh2'].copy()
     d['Mesh2'].attrs = {k: v for k, v in d['Mesh2'].attrs.items() if k != 'cf_role'}
     out['ugrid-without-mesh-variable'] = d
+    # the UGRID marker inside a list of conventions, in the spellings CF allows (blank or comma separated) and others seen in files
+    for k, text in enumerate(('CF-1.6, UGRID-1.0', 'CF-1.6,UGRID-1.0', 'CF-1.8 UGRID-1.0 Deltares-0.10', 'CF-1.6/UGRID-1.0',
+                              'ACDD-1.3;UGRID-1.0', 'UGRID')):
+        d = ugrid.copy()
+        d.attrs['Conventions'] = text
+        out[f'ugrid-conventions-list-{k}'] = d
+    d = ugrid.copy()
+    d.attrs['Conventions'] = 'ugrid-1.0'        # the marker is upper case
+    out['ugrid-lowercase-marker'] = d
     out['shoc-standard-missing-coordinate'] = out['shoc_standard'].drop_vars(['x_left'])
     d = out['shoc_simple'].copy()
     d.attrs = {k: v for k, v in d.attrs.items() if k != 'ems_version'}
@@ -244,7 +259,7 @@ def run_detect(case, rec):
         if tie:
             rec.nontrivial((key, tuple(order)))
         got = report[key]
-        which = 'near-miss' if '-' in key or key == 'empty' else 'valid'
+        which = 'valid' if key.startswith('ugrid-conventions-list') or '-' not in key and key != 'empty' else 'near-miss'
         rec.check(got['first'] == want, f"{fp}/{which}-wrong-convention", f"{key} with extras registered {order}", want, got['first'])
         rec.check(got['second'] == got['first'], f"{fp}/unstable", f"{key}: second detection differs", got['first'], got['second'])
         rec.check(got.get('after_use') == want, f"{fp}/depends-on-process-history",
@@ -461,7 +476,49 @@ def run_bind_bfs(case, rec):
     rec.outcome(['bind-bfs', len(seen), max_depth])
 
 
+def run_files(case, rec):
+    """Detection of file-backed datasets must depend on what the file holds now, not on what was seen at that
+    path (or derived from it) earlier in the process."""
+    import emsarray
+    from .. import env
+    from emsarray.conventions import get_dataset_convention
+    fp = "C11/files"
+    datasets = detection_datasets()
+    order = case['order']
+    with env.scratch_dir() as tmp:
+        path = os.path.join(tmp, 'model.nc')
+        seen = []
+        for key in order:
+            if os.path.exists(path):
+                os.remove(path)
+            datasets[key].to_netcdf(path)
+            want, _ = model_detect(datasets[key], [])
+            opened = xr.open_dataset(path)
+            try:
+                got = type(opened.ems).__name__
+            except RuntimeError:
+                got = None
+            rec.check(got == want, f"{fp}/stale-class-for-path", f"file rewritten with {key} after {seen}: convention of the reopened file", want, got)
+            # a dataset derived from the opened one, with what identified it removed, is a near-miss again
+            stripped = opened.copy()
+            for name in list(stripped.variables):
+                stripped[name].attrs = {}
+            stripped.attrs = {}
+            want_stripped, _ = model_detect(stripped, [])
+            try:
+                got_stripped = type(stripped.ems).__name__
+            except RuntimeError:
+                got_stripped = None
+            cls = get_dataset_convention(stripped)
+            rec.check(got_stripped == want_stripped and (cls.__name__ if cls else None) == want_stripped, f"{fp}/derived-dataset-keeps-class",
+                      f"{key}: a copy with all attributes removed", want_stripped, got_stripped)
+            opened.close()
+            seen.append(key)
+            rec.nontrivial(tuple(seen))
+    rec.outcome(['files', order])
+
+
 def run_case(case):
     rec = Recorder()
-    {'detect': run_detect, 'bind-full': run_bind_full, 'bind-bfs': run_bind_bfs}[case['part']](case, rec)
+    {'detect': run_detect, 'bind-full': run_bind_full, 'bind-bfs': run_bind_bfs, 'files': run_files}[case['part']](case, rec)
     return rec.result()
